@@ -343,6 +343,34 @@ MUTANTS = [
      'edits': [(VM, "    const MAX_LOAD: f64 = 0.75;", "    const MAX_LOAD: f64 = 1.0;")]},
     {'name': 'I4 table grows by half', 'prop': 'C11', 'expect': 'I4 / capacity doubles',
      'edits': [(VM, "                self.adjust_capacity(self.entries.len() * 2);", "                self.adjust_capacity(self.entries.len() * 3 / 2);")]},
+    # ---- C13 ----------------------------------------------------------------------------------------
+    {'name': 'U1 from_ascii builds the string without validation', 'prop': 'C13', 'expect': 'U1 / yarel::core::string_from_ascii calls',
+     'edits': [(CORE, '''    let string = vm.new_gc_obj_string(&String::from_utf8(bytes).map_err(|_| {
+        Error::with_message(
+            ErrorKind::ValueError,
+            &format!("Unable to create a string from byte sequence."),
+        )
+    })?);
+
+    Ok(Value::ObjString(string))
+}
+
+fn string_from_utf8''', '''    let string = vm.new_gc_obj_string(&unsafe { String::from_utf8_unchecked(bytes) });
+
+    Ok(Value::ObjString(string))
+}
+
+fn string_from_utf8''')]},
+    {'name': 'U2 vec assignment indexes with the raw operand', 'prop': 'C13', 'expect': 'U2 / yarel::vm::Vm::set_item_impl',
+     'edits': [(VM, "        let mut borrowed_vec = vec.borrow_mut();\n        borrowed_vec.elements[index] = self.peek(0);",
+                "        let _ = index;\n        let raw = self.peek(1).try_as_number().unwrap_or(0.0) as usize;\n        let mut borrowed_vec = vec.borrow_mut();\n        borrowed_vec.elements[raw] = self.peek(0);")]},
+    {'name': 'U2 find starts at the unvalidated operand', 'prop': 'C13', 'expect': 'U2 / yarel::core::string_find',
+     'edits': [(CORE, "        let slice = &string[i..i + substring.len()];", "        let slice = &string[i..i + substring.len()];\n        let _first = string.as_bytes()[vm.peek(0).try_as_number().unwrap_or(0.0) as usize];")]},
+    {'name': 'U3 range slice end not checked for a character boundary', 'prop': 'C13', 'expect': 'U3 / yarel::vm::Vm::string_get_item / str slice',
+     'edits': [(VM, "                string.validate_char_boundary(end, \"string slice end\")?;\n", "")]},
+    {'name': 'U3 single index slices one byte instead of one character', 'prop': 'C13', 'expect': 'U3 / yarel::vm::Vm::string_get_item / str slice',
+     'edits': [(VM, "                let mut end = begin + 1;\n                while end <= string.len() && !string.as_str().is_char_boundary(end) {\n                    end += 1;\n                }\n                (begin, end)",
+                "                let end = begin + 1;\n                (begin, end)")]},
 ]
 
 BENIGN = [
